@@ -54,7 +54,7 @@ def work(pg):
                 for fp in ref3:
                     m = ppsuite.joint_model(fp.pc + [_model_constraint(mm['model'])])
                     if m is not None and fp.value[0] == 'ok' and nat.get('ok') and \
-                            [t.text for t in fp.value[1]] == ppsuite.tokens_of(nat['text']):
+                            ppsuite.ref_tokens(fp.value[1]) == ppsuite.tokens_of(nat['text']):
                         role = 'F3:elsif-predefined-test-uses-first-identifier'
             except Exception:
                 pass
